@@ -274,6 +274,7 @@ def _phase_wrapper(name, orig):
             rec = dict(name=name, occ=occ, round=rnd, exc=None)
             states = [(i, a) for i, a in enumerate(args) if _is_state(a)]
             rec["in"] = {i: snap_state(a) for i, a in states}
+            rec["_in_refs"] = {i: a for i, a in states}
             rec["args"] = [None if _is_state(a) else _plain(a) for a in args]
             rec["kwds"] = {k: _plain(v) for k, v in kwds.items()}
             rec["arg_objs"] = [id(a) for a in args]
@@ -300,6 +301,7 @@ def _phase_wrapper(name, orig):
             rec["kwds_after"] = {k: _plain(v) for k, v in kwds.items()}
             if _is_state(out):
                 rec["out"] = snap_state(out)
+                rec["_out_ref"] = out
                 rec["out_is_in"] = any(out is a for _, a in states)
             else:
                 rec["ret"] = _plain(out)
@@ -531,6 +533,12 @@ def run_call(case, record=True, owned=False):
         if pool_kind == "real":
             out.children_after = _children_after()
     finally:
+        # every state ever handed from phase to phase, looked at again when the call is over
+        for rec in sim.phases:
+            if "_in_refs" in rec:
+                rec["in_final"] = {i: snap_state(a) for i, a in rec.pop("_in_refs").items()}
+            if "_out_ref" in rec:
+                rec["out_final"] = snap_state(rec.pop("_out_ref"))
         remove_seams(pat)
         sys.stdout = old_stdout
         if old_env is None:
